@@ -2,6 +2,7 @@
 #pragma once
 #include "../common/engine.hpp"
 #include "../common/keygen.hpp"
+#include <deque>
 #include "pgm/pgm_index_variants.hpp"
 #include <sstream>
 
@@ -75,7 +76,21 @@ template<typename Index, typename K>
 std::unique_ptr<Index> build_maybe_over_prior(TapeReader &t, const GenOpts &o, const std::vector<K> &keys, CaseResult &res, bool execute,
                                               Bystander<Index, K> *by = nullptr) {
     bool over_prior = t.chance(1, 5);
-    if (!over_prior) return execute ? std::unique_ptr<Index>(new Index(keys.begin(), keys.end())) : nullptr;
+    // the range handed to the constructor: vector iterators (1/2), std::deque iterators (random access, not contiguous), raw pointers
+    const unsigned src = (unsigned) t.below(4);
+    auto construct = [&](const std::vector<K> &ks) -> Index * {
+        if (src == 2 && ks.size() <= (size_t(1) << 20)) {
+            std::deque<K> dq(ks.begin(), ks.end());
+            res.label("source_deque_iterators");
+            return new Index(dq.begin(), dq.end());
+        }
+        if (src == 3) {
+            res.label("source_raw_pointers");
+            return new Index(ks.data(), ks.data() + ks.size());
+        }
+        return new Index(ks.begin(), ks.end());
+    };
+    if (!over_prior) return execute ? std::unique_ptr<Index>(construct(keys)) : nullptr;
     GenOpts o2 = o;
     o2.xkeys = nullptr;
     o2.xthreads = nullptr;
@@ -97,10 +112,12 @@ std::unique_ptr<Index> build_maybe_over_prior(TapeReader &t, const GenOpts &o, c
     (void) cap;
     std::unique_ptr<Index> obj(new Index(prior.begin(), prior.end()));
     if (by_copy) {
-        Index fresh(keys.begin(), keys.end());
-        *obj = fresh;
-    } else
-        *obj = Index(keys.begin(), keys.end());
+        std::unique_ptr<Index> fresh(construct(keys));
+        *obj = *fresh;
+    } else {
+        std::unique_ptr<Index> fresh(construct(keys));
+        *obj = std::move(*fresh);
+    }
     res.label(by_copy ? "assigned_over_prior_content_by_copy" : "assigned_over_prior_content_by_move");
     if (by && keep_bystander && prior.size() <= (size_t(1) << 20)) {
         by->idx.reset(new Index(prior.begin(), prior.end()));
